@@ -287,10 +287,69 @@ pub fn run(out: &mut Out, seed: u64, thorough: bool, scn: Option<&str>) {
             }
         }
     }
+    // a maximum of n consecutive re-uses with fragmented PDUs in the streak: a first fragment whose label was replaced
+    // counts like a complete packet (every second / third PDU is sent in fragments)
+    for n in 1..=3u8 {
+        for every in [2usize, 3] {
+            let mgr = TableMgr { known: vec![] };
+            let mut rx = mk_rx(out, "labels", "max_run_fragmented", 3, 64, 3, mgr, true);
+            let mut enc = Encapsulator::new(DefaultCrc {});
+            ev_cfg(out, &mut enc, Cfg::EnableMax(n));
+            for i in 0..(3 * n as usize + 6) {
+                let frag = i % every == every - 1;
+                let (pdu, buf) = if frag { (&pool.mid, 30) } else { (&pool.small[i % 4], 64) };
+                let t = ev_encap(out, &mut enc, pdu, 20 + (i % 2) as u8, LA6, 0x0800, buf, None, None);
+                feed_tx(out, &mut rx, &t);
+                let mut ctx = match &t.res {
+                    Some(Ok(EncapStatus::FragmentedPkt(_, c))) => Some(*c),
+                    _ => None,
+                };
+                let mut guard = 0;
+                while let Some(c) = ctx {
+                    guard += 1;
+                    if guard > 8 {
+                        break;
+                    }
+                    let t = ev_encap_frag(out, &enc, pdu, &c, 40);
+                    ctx = match &t.res {
+                        Some(Ok(EncapStatus::FragmentedPkt(_, c2))) => Some(*c2),
+                        _ => None,
+                    };
+                    feed_tx(out, &mut rx, &t);
+                }
+            }
+            rx.ev_drain(out);
+        }
+    }
+    // a re-use label passed by the caller in the middle of a streak neither spends nor refills the budget of
+    // substitutions
+    for n in 1..=3u8 {
+        for k in 0..=(n as usize) {
+            for nexp in 1..=2usize {
+                let mgr = TableMgr { known: vec![] };
+                let mut rx = mk_rx(out, "labels", "explicit_reuse_in_streak", 3, 64, 3, mgr, true);
+                let mut enc = Encapsulator::new(DefaultCrc {});
+                ev_cfg(out, &mut enc, Cfg::EnableMax(n));
+                for i in 0..=k {
+                    let t = ev_encap(out, &mut enc, &pool.small[i % 4], 1, LA3, 0x0800, 64, None, None);
+                    feed_tx(out, &mut rx, &t);
+                }
+                for _ in 0..nexp {
+                    let t = ev_encap(out, &mut enc, &pool.small[1], 1, Label::ReUse, 0x0800, 64, None, None);
+                    feed_tx(out, &mut rx, &t);
+                }
+                for i in 0..(n as usize + 3) {
+                    let t = ev_encap(out, &mut enc, &pool.small[i % 4], 1, LA3, 0x0800, 64, None, None);
+                    feed_tx(out, &mut rx, &t);
+                }
+                rx.ev_drain(out);
+            }
+        }
+    }
     // a train whose first fragment was a re-use of A is still open while a packet with another label B goes out in
     // full; the train ends; B is sent again (a re-use of B): fragments carry no label and must not touch either
     // side's label memory, whether the train's own first fragment was a re-use or not
-    for (a, b) in [(LA6, LB6), (LA3, LA6), (LA6, Label::Broadcast), (LB3, LA3)] {
+    for (a, b) in [(LA6, LB6), (LA3, LA6), (LA6, Label::Broadcast), (LB3, LA3), (Label::Broadcast, LA6), (Label::Broadcast, LA3)] {
         for first_reuse in [true, false] {
             for use_ext in [false, true] {
                 let mgr = TableMgr { known: vec![] };
